@@ -80,7 +80,7 @@ func (c *compiler) expandExpression(expr []token, line int) ([]token, error) {
 	var output []token
 
 	for !exprEqual(input, output) {
-		if len(output) > 0 {
+		if output != nil {
 			input = output
 		}
 
